@@ -1,4 +1,5 @@
-(* C01 driver: histories through the extracted model (Model.run / iv_run, ModelExt.xrun / st_run / iv_xrun)
+(* C01 driver: histories through the extracted model (ModelExt.xrun_fast / st_run / iv_xrun_fast - proved equal to
+   xrun / iv_xrun on every invariant state, Properties_ext.C01_fast_model_equal)
    and spec (Spec.spec_run, SpecExt.xspec_run / st_spec_run / iv_xspec_run) *)
 let b t = next_int t <> 0
 
@@ -163,13 +164,13 @@ let run_case op t =
       let cz = z_of_int capi in
       if has_prefix flavour "iv" then begin
         let ops = parse_iv t in
-        (render (iv_xrun s0 ops), render_spec (iv_xspec_run cz ([], []) ops))
+        (render (iv_xrun_fast s0 ops), render_spec (iv_xspec_run cz ([], []) ops))
       end else if has_prefix flavour "st" then begin
         let ops = parse_st t in
         (render (st_run s0 ops), render_spec (st_spec_run cz ([], []) ops))
       end else begin
         let ops = parse_sv t in
-        (render (xrun pred_of s0 ops), render_spec (xspec_run pred_of cz ([], []) ops))
+        (render (xrun_fast pred_of s0 ops), render_spec (xspec_run pred_of cz ([], []) ops))
       end
   | _ -> raise Not_found
 
